@@ -47,7 +47,9 @@ NumInputs == <<<<VN(1)>>, <<VN(2)>>, <<VN(3)>>, <<VNull>>>>
 NumEntries == {AnyE, One, UT("utlt", Two), UT("utle", Two), UT("utgt", Two), UT("utge", Two),
                Rg(One, TRUE, Three, TRUE), Rg(One, FALSE, Three, FALSE), Rg(One, TRUE, Two, FALSE), Rg(Two, FALSE, Three, TRUE),
                EL(<<One, Three>>), EL(<<UT("utlt", Two), UT("utgt", Two)>>), EL(<<One, Rg(Two, FALSE, Three, TRUE)>>),
-               NotL(<<Two>>), NotL(<<One, UT("utgt", Two)>>), NotL(<<Rg(One, TRUE, Two, TRUE)>>)}
+               NotL(<<Two>>), NotL(<<One, UT("utgt", Two)>>), NotL(<<Rg(One, TRUE, Two, TRUE)>>),
+               NotL(<<UT("utlt", Two)>>), NotL(<<UT("utle", Two)>>), NotL(<<UT("utgt", Two)>>), NotL(<<UT("utge", Two)>>),
+               NotL(<<UT("utlt", Two), UT("utge", Three)>>), EL(<<UT("utle", One), UT("utge", Three)>>)}
 StrEntries == {AnyE, S("a", <<97>>), EL(<<S("a", <<97>>), S("b", <<98>>)>>), NotL(<<S("a", <<97>>)>>), UT("utgt", S("a", <<97>>)), Rg(S("a", <<97>>), TRUE, S("b", <<98>>), FALSE)}
 Match == {Table("MATCH", "U", <<In("x", "number", NoAllowed)>>, <<Out("", <<>>, None)>>, <<Rule(<<e>>, <<O10>>)>>,
                 <<<<VN(1)>>, <<VN(2)>>, <<VN(3)>>, <<[k |-> "num", m |-> 25, e |-> 0 - 1]>>, <<VNull>>>>) : e \in NumEntries}
